@@ -154,7 +154,7 @@ def non_uniform_savgol(x, y, window, polynom):
             for j in range(0, window, 1):
                 for k in range(polynom):
                     first_coeffs[k] += coeffs[k, j] * y[j]
-        elif i == len(x) - half_window - 1:
+        if i == len(x) - half_window - 1:
             last_coeffs = np.zeros(polynom)
             for j in range(0, window, 1):
                 for k in range(polynom):
